@@ -354,6 +354,7 @@ type e2eCase struct {
 	Answers        [][]candSpec `json:"answers"`
 	SystemResolver bool         `json:"system_resolver"`
 	Twin           bool         `json:"embedded_twin,omitempty"`
+	OtherPort      bool         `json:"same_ip_other_port,omitempty"`
 	Reqs           []reqSpec    `json:"requests"`
 	TimeoutMs      int          `json:"timeout_ms"`
 	MaxBytes       int64        `json:"max_bytes"`
@@ -683,6 +684,45 @@ func genE2ECase(t *rapid.T, pool []poolAddr) e2eCase {
 		for i := 1; i < len(c.Reqs); i++ { // other requests may only refer to the two listeners that exist
 			if c.Reqs[i].Port.Of > 1 {
 				c.Reqs[i].Port.Of = rapid.IntRange(0, 1).Draw(t, "twin-req-port")
+			}
+		}
+	}
+	// "same IP, other port": a request to a carved-out refused (IP, port) pair succeeds first; a
+	// second request through the SAME Service then goes to an allowlisted hostname on another port
+	// that resolves to the same IP (rebinding / internal DNS), where a listener waits. The
+	// carve-out is for the pair, whatever was admitted before.
+	if !c.Twin && rapid.IntRange(0, 7).Draw(t, "otherport-scenario") == 5 {
+		var v4 []string
+		for _, p := range pool {
+			if p.TwinOf == "" && !strings.Contains(p.IP, ":") {
+				v4 = append(v4, p.IP)
+			}
+		}
+		if len(v4) > 0 {
+			a := rapid.SampledFrom(v4).Draw(t, "otherport-ip")
+			c.OtherPort = true
+			c.Listeners = []lsnSpec{
+				{Addr: a, SharePort: -1, Mode: "ok", Status: 302, BodyLen: 2},
+				{Addr: a, SharePort: -1, Mode: rapid.SampledFrom([]string{"ok", "close"}).Draw(t, "otherport-mode"), Status: 302, BodyLen: 2}}
+			host := rapid.SampledFrom(hostnames[:3]).Draw(t, "otherport-host")
+			c.Allow = []allowSpec{{Scheme: "http", Host: a, Port: portRef{Of: 0}}, {Scheme: "https", Host: host, Port: portRef{Of: 1}}}
+			c.CeilingMode = rapid.SampledFrom([]string{"none", "none", "unrestricted", "restricted"}).Draw(t, "otherport-ceiling")
+			c.CeilingKeep = nil
+			if c.CeilingMode == "restricted" {
+				c.CeilingKeep = []int{0, 1}
+			}
+			c.Answers = [][]candSpec{{{IP: a, As16: rapid.Bool().Draw(t, "otherport-as16")}}}
+			c.SystemResolver = false
+			r0 := c.Reqs[0]
+			r0.Scheme, r0.Userinfo, r0.Host, r0.Port, r0.Headers, r0.Method, r0.Path = "http", "", a, portRef{Of: 0}, nil, "GET", "/"
+			r1 := r0
+			r1.Scheme, r1.Host, r1.Port = "https", host, portRef{Of: 1}
+			c.Reqs = []reqSpec{r0, r1}
+			if c.TimeoutMs < 80 {
+				c.TimeoutMs = 150
+			}
+			if c.MaxBytes < 16 {
+				c.MaxBytes = 1024
 			}
 		}
 	}
@@ -1175,6 +1215,9 @@ func (e *e2eEnv) runE2ECase(c e2eCase) (res e2eResult) {
 	res.Classes = append(res.Classes, "e2e:ceiling-"+c.CeilingMode)
 	if c.Twin {
 		res.Classes = append(res.Classes, "e2e:embedded-twin-of-carved-out-pair")
+	}
+	if c.OtherPort {
+		res.Classes = append(res.Classes, "e2e:same-ip-other-port-after-carved-out-call")
 	}
 	res.NonTrivial = carve || mixed
 	return res
